@@ -1,9 +1,9 @@
 ----------------------------- MODULE TextX01T -----------------------------
 (* thorough tier grid of the extension check X01 *)
 EXTENDS TextX01
-X01Thorough ==
-  [g \in {"rint", "aeq", "shz", "midi", "m2s", "f2s", "oct", "frac", "auto", "fmt", "poly", "zf", "table", "doc", "fmtdoc"} |->
-     CASE g = "rint" -> RintGrid(41, {1, 2, 4, 8}, {1, 2, 3, 5, 7, 10, 12})
+X01ThoroughGroups == {"rint", "aeq", "shz", "midi", "m2s", "f2s", "oct", "frac", "auto", "fmt", "poly", "zf", "table", "doc", "fmtdoc"}
+X01Thorough(g) ==
+  CASE g = "rint" -> RintGrid(200, {1, 2, 4, 8}, {1, 2, 3, 5, 7, 10, 12})
        [] g = "aeq" -> AeqScalar(5)
                  \cup AeqFlat(5, 2)
                  \cup AeqNested(5)
@@ -13,13 +13,13 @@ X01Thorough ==
                  \cup Midi2FreqGrid(0)
                  \cup Freq2MidiGrid(0)
                  \cup Str2FreqGrid(0)
-       [] g = "m2s" -> Midi2StrGrid(-40, 160, 31)
+       [] g = "m2s" -> Midi2StrGrid(-60, 200, 31)
        [] g = "f2s" -> Freq2StrGrid(-69, 70)
        [] g = "oct" -> OctGrid({R(1), R(3), R(8), <<55, 2>>, R(440), <<5, 4>>, R(7), <<1, 8>>, R(20000), R(16)},
                {<<1, 2>>, R(2), R(4), R(20), <<55, 2>>, R(3), <<1, 16>>, R(8)},
                {R(5), R(8), R(16), R(20000), R(4), <<7, 2>>, R(440)})
                  \cup OctBad(0)
-       [] g = "frac" -> FracApprox(40, {1, 2, 3, 4, 5, 6, 7, 9, 11, 13, 16, 30, 1000})
+       [] g = "frac" -> FracApprox(80, {1, 2, 3, 4, 5, 6, 7, 9, 11, 13, 16, 30, 1000})
                  \cup FracShape(ShapeXs(0), {1, 2, 5, 1000, 1000000})
        [] g = "auto" -> AutoGrid(2, {6, 20, 30, 1000000})
                  \cup AutoListGrid(0)
@@ -30,5 +30,5 @@ X01Thorough ==
        [] g = "zf" -> ZfGrid(0)
        [] g = "table" -> TableGrid(2, Rows2(1))
        [] g = "doc" -> DocGrid(2, {4, 5, 8, 13, 80}, {<<>>, Ch("> "), Ch("\n  ")})
-       [] g = "fmtdoc" -> FdGrid(3, FdTriples(0))]
+       [] g = "fmtdoc" -> FdGrid(3, FdTriples(0))
 =============================================================================
